@@ -5,7 +5,7 @@ from . import _bounded
 PROPERTIES = {
     "C12": dict(
         modules=["contracts.c12_get_data", "contracts.c02_documents"],
-        bounded=[_bounded.lazy("contracts.e2e_variables", "bounded_method_locals")],
+        bounded=[_bounded.lazy("contracts.e2e_variables", "bounded_method_locals"), _bounded.lazy("contracts.e2e_outcomes", "bounded_outcomes")],
         explanation="get_data of the four bundled base clients against the decision table of the statement; loop-free apart "
                     "from one comprehension (handled by map extensionality), so the symbolic execution over full-domain "
                     "status/body inputs is a complete proof",
@@ -28,7 +28,7 @@ PROPERTIES = {
     ),
     "C06": dict(
         modules=["contracts.c06_input_types", "contracts.c06_defaults", "contracts.c18_names", "contracts.c09_pruning"],
-        bounded=[_bounded.lazy("contracts.c09_pruning", "bounded_pruning")],
+        bounded=[_bounded.lazy("contracts.c09_pruning", "bounded_pruning"), _bounded.lazy("contracts.e2e_variables", "bounded_variables")],
         explanation="input type translator and default-literal translator against the image/coercion spec functions, by structural induction",
         assumptions=["acceptance/refusal of concrete values by the emitted annotations is pydantic's (assumed contract)"],
     ),
@@ -48,7 +48,8 @@ PROPERTIES = {
     "C18": dict(
         modules=["contracts.c18_names", "contracts.c04_modules"],
         bounded=[_bounded.lazy("contracts.c18_names", "bounded_names"), _bounded.lazy("contracts.c18_names", "bounded_pairs"),
-                 _bounded.lazy("contracts.c18_names", "bounded_wire_names")],
+                 _bounded.lazy("contracts.c18_names", "bounded_wire_names"),
+                 _bounded.lazy("contracts.e2e_variables", "bounded_variables"), _bounded.lazy("contracts.e2e_builder", "bounded_builder")],
         explanation="process_name for all strings in SMT string theory; str_to_snake_case by exhaustive bounded enumeration",
         assumptions=["A_snake: assumed contract on str_to_snake_case (regex lookahead is outside the solvers' fragment), bounded stand-in only"],
     ),
@@ -113,8 +114,9 @@ PROPERTIES = {
         assumptions=["equivalence of whole plugged and unplugged packages on scripted responses is sampled, not proved"],
     ),
     "C03": dict(
-        modules=["contracts.c03_arguments", "contracts.c11_clients", "contracts.c06_input_types", "contracts.c07_scalars"],
-        bounded=[_bounded.lazy("contracts.e2e_variables", "bounded_method_locals"), _bounded.lazy("contracts.e2e_variables", "bounded_variables")],
+        modules=["contracts.c03_arguments", "contracts.c11_clients", "contracts.c06_input_types", "contracts.c06_defaults", "contracts.c07_scalars"],
+        bounded=[_bounded.lazy("contracts.e2e_variables", "bounded_method_locals"), _bounded.lazy("contracts.e2e_variables", "bounded_variables"),
+                 _bounded.lazy("contracts.c11_multipart", "bounded_separation")],
         explanation="variable annotation translator, local-name freshness, run-time value conversion; whole calls by an end-to-end bounded stand-in with graphql-core's variable coercion",
         assumptions=["that dumped JSON coerces to the caller's values is pydantic's and graphql-core's (assumed, sampled by the stand-in)"],
     ),
